@@ -223,8 +223,6 @@ func (m *clientHelloMsg) marshal() []byte {
 				b.AddUint16(extensionExtendedRandom)
 				b.AddUint16LengthPrefixed(func(b *cryptobyte.Builder) {
 					exLen := len(m.extendedRandom)
-					fullLength := 2 + exLen
-					b.AddUint16(uint16(fullLength))
 					b.AddUint16(uint16(exLen))
 					b.AddBytes(m.extendedRandom)
 				})
